@@ -684,6 +684,25 @@ pub fn gen_streams(out: &mut Out, thorough: bool, opts: &[&str], focus: &str) {
         out.count_n("stream_high_then_any_unit", n);
         out.exhaustive.push(format!("high surrogate {:x?} followed by every \\uXXXX (stride {}) under {} option records; all triples over the boundary units {:?} under all option records", highs, stride, os.len(), bnd));
     }
+    // (m) wide containers: objects with many distinct keys (hash-table growth steps) and duplicates at
+    // chosen places, arrays with many items; every keyed lookup is checked by the C02 lookup oracle
+    {
+        for &nk in (if thorough { &[20usize, 57, 113, 130, 300, 1000, 5000][..] } else { &[20usize, 113, 130, 300][..] }) {
+            for variant in 0..3 {
+                let mut d = String::from("{");
+                for i in 0..nk {
+                    if i > 0 { d.push(','); if variant == 1 { d.push_str("\n  "); } }
+                    let key = match variant { 2 if i % 10 == 3 => format!("k{}", i / 20), _ => format!("k{}", i) };
+                    d.push_str(&format!("\"{}\":{}", key, if i % 7 == 0 { "[1,{\"x\":null}]".to_string() } else { i.to_string() }));
+                }
+                d.push_str(",\"k1\":\"dup\",\"last\":[],\"k1\":2}");
+                for o in [opts[0], opts[opts.len() - 1]] { l(req_str(&d, o), out); }
+            }
+            let arr = format!("[{}]", (0..nk * 3).map(|i| if i % 5 == 0 { "\"s\"".to_string() } else { i.to_string() }).collect::<Vec<_>>().join(", "));
+            l(req_str(&arr, opts[0]), out);
+        }
+        out.exhaustive.push("wide objects (20 … 300 / 5000 keys, three layouts, duplicated keys near the start, in the middle and at the end) and wide arrays".into());
+    }
     // (i) UTF-8 byte sequences inside a string
     let mut b0 = 0x80u32;
     while b0 < 0x100 {
